@@ -164,10 +164,12 @@ func c02Run(c *Ctx) {
 			sort.Strings(names)
 			if len(names) > 0 {
 				victim := names[r.Intn(len(names))]
-				if r.Bool() {
+				switch v := feed[victim]; {
+				case r.Bool():
 					delete(feed, victim)
-				} else {
-					v := feed[victim]
+				case r.Bool() && v.Rank() > 1: // one rank less: the leading (often symbolic) axis dropped
+					feed[victim] = r.Tensor(v.DT, v.Shape[1:], gen.FillSmall, 2)
+				default:
 					feed[victim] = r.Tensor(v.DT, append([]int{1}, v.Shape...), gen.FillSmall, 2)
 				}
 				expectFail = true
